@@ -80,7 +80,7 @@ class Cones:
         elif t == "lazy":
             m.add(("lazy", "\n".join(ir.lazy_text(prog))))
         elif t == "shadow":
-            m.add(("helper", it["name"], "\n".join(ir.shadow_text(it["name"]))))
+            m.add(("helper", it["name"], "\n".join(ir.shadow_text(it["name"], prog))))
         elif t == "ext":
             m.add(("ext", "extlib.ext_fn"))
         elif t == "extvar":
